@@ -80,7 +80,8 @@ class C07:
             "run's final state; error captures carry seeded diagnostic options and S-with-other-options is part of the history; (c) wall clock - stall/coarse-clock faults; (d) concurrency - 2-4 independent executors (S with copies of itself "
             "and/or other scenarios; graphs wired beforehand, make_executor()+run()+release concurrent) on simulated threads pre-empted at every "
             "intercepted mutex operation and at every node evaluation under a seeded scheduler. non-trivial = S has >= 3 evaluations; distinct = "
-            "distinct (S shape, variation parameters, interleaving hash)")
+            "distinct (S shape, variation parameters, interleaving hash)"
+            " Round 3: 12% of the runs are a carry family (two runs sharing state through the builder seed, the second recording a late or silent writer under the first run s key; differential); the instrumented pass sweeps a sample of call sites of the concurrent section.")
     assumptions = ["baton passing makes every step atomic between interception points: word-level data races and weak-memory effects are out of reach (DESIGN section 5)"]
 
     def gen_text_case(self, rng):
